@@ -51,7 +51,7 @@ Proof.
   exact (guarded_update_exact _ sched (uinit_consistent _ Hnd) Hq).
 Qed.
 
-(** non-vacuity: the schedule of the probe "sweeper between its two halves, worker admitting a put that needs the space":
+(** non-vacuity: the schedule of the probe "sweeper between its two halves, worker letting in a put that needs the space":
     the put finds nothing to evict and gives up; total 6 with no charge until the sweeper subtracts *)
 Example ledger_trace_witness :
   gobs 10 [[AStart 1 6]; [ACheck]; [AInsert; AAdd]; [AStart 2 6]; [ASweepRemove 1]; [ACheck]; [AGiveUp]; [ASweepSub]]
